@@ -145,6 +145,7 @@ def run(c):
             rid, st = schedule_steps(s["hist"], signer, n)
             steps += st
             expect[rid] = (signer, s)
+    sched_steps = steps
     ev, d, _ = rig.run_rig({"steps": steps}, "c10_sched", timeout=600)
     got = {rid: (g, v, e) for rid, g, v, e in sign_events(ev, None)}
     for rid, (signer, s) in expect.items():
@@ -371,7 +372,14 @@ def run(c):
             ev2, _, _ = rig.run_rig({"steps": st2}, "c10_re", timeout=600)
             again = [(g, v) for r, g, v, e in sign_events(ev2, None) if g is not None]
             if not again or again[0][0] == again[0][1]:
-                raise util.ToolError("mis-paired signature did not reproduce from its schedule %s" % s["hist"])
+                # not from this schedule alone: the signer may carry state from the calls before it (one process runs all
+                # schedules in order) -- re-execute the whole sequence and look at the same call again
+                ev3, _, _ = rig.run_rig({"steps": sched_steps}, "c10_re_all", timeout=600)
+                again3 = {r: (g, v) for r, g, v, e in sign_events(ev3, None)}.get(bad["id"])
+                if not again3 or again3[0] is None or again3[0] == again3[1]:
+                    raise util.ToolError("mis-paired signature did not reproduce from its schedule %s" % s["hist"])
+                replay = {"signer": sg, "hist": s["hist"], "id": bad["id"], "needs_history": True, "steps": sched_steps}
+                sig = dict(sig, after="earlier-calls-of-the-same-process")
         c.violation("authorization header announces key %s but its MAC verifies under %s (signer %s, schedule %s)" % (
             name_of(bad["guid"]), name_of(bad["verifies"]) if bad["verifies"] != "none" else "no latched key", bad["signer"], bad.get("hist")),
             sig, replay or {"event": bad})
@@ -394,7 +402,11 @@ def replay(c, path):
     c.count(json.dumps(case))
     c.sample(case)
     rid, st = schedule_steps(case["hist"], case["signer"], 778)
+    if case.get("needs_history"):
+        st = case["steps"]
     ev, _, _ = rig.run_rig({"steps": st}, "c10_replay", timeout=600)
-    for _, g, v, e in sign_events(ev, None):
+    for r_, g, v, e in sign_events(ev, None):
+        if case.get("needs_history") and r_ != case.get("id"):
+            continue
         if g is not None and g != v:
             c.violation("replayed schedule still mis-pairs id and MAC", r["signature"], case)
